@@ -286,8 +286,8 @@ func runCase(c Case, raw json.RawMessage) M {
 	select {
 	case run := <-done:
 		return M{"case": raw, "run": run}
-	case <-time.After(120 * time.Second):
-		return M{"case": raw, "run": M{"cfg": cfg, "H": []M{}, "reads": 0, "rem": 0, "outcome": "hang: scan did not end within 120s", "resume": []M{}}}
+	case <-time.After(40 * time.Second):
+		return M{"case": raw, "run": M{"cfg": cfg, "H": []M{}, "reads": 0, "rem": 0, "outcome": "hang: scan did not end within 40s", "resume": []M{}}}
 	}
 }
 
